@@ -234,6 +234,28 @@ def probes(model, part, case, touched):
                 elif cat == "markings":
                     md = mod.MarkingDefinition(definition_type=name, definition={"prop": "v"})
                     r = md.definition
+                    if cls is not None:
+                        # the name stands for EXACTLY its class: a ready-made definition of another marking class under this name is refused - or, if taken, what is
+                        # written reads back as this name's class
+                        others = [("statement", mod.StatementMarking(statement="s")), ("tlp", mod.TLPMarking(tlp="white"))] + \
+                            [(n2, c2(prop="v")) for n2, c2 in sorted(model.custom[(ver, "markings")].items()) if n2 != name and c2 is not None and c2 is not cls]
+                        for oname, inst in others[:3]:
+                            part.transitions += 1
+                            try:
+                                md2 = mod.MarkingDefinition(definition_type=name, definition=inst)
+                            except (X.STIXError, ValueError, TypeError):
+                                part.outcome("foreign-definition:refused")
+                                continue
+                            try:
+                                back = stix2.parse(md2.serialize(), version=ver, allow_custom=False)
+                                okb = isinstance(back.definition, cls)
+                                why = type(back.definition).__name__
+                            except Exception as e:
+                                okb, why = False, "%s: %s" % (type(e).__name__, str(e)[:120])
+                            part.outcome("foreign-definition:" + ("consistent" if okb else "INCONSISTENT"))
+                            if not okb:
+                                fail("C19/not-exact/markings/foreign-definition-instance-accepted", "a marking-definition takes a ready-made definition of another marking class under this name, and what it writes does not read back",
+                                     "refused, or reads back as %s" % cls.__name__, why, [cat, name, ver, oname])
                 else:
                     flavour = getattr(cls, "extension_type", None) if cls is not None else None
                     if flavour == "toplevel-property-extension":
